@@ -174,6 +174,8 @@ func init() {
 		Harnesses: func(tier string) []HarnessSpec {
 			hs := []HarnessSpec{{Name: "provider-history", Pkg: "cluster", Func: "ZZ_C20_Provider", Params: pm("U", tierSel(tier, 3, 4), "N", 3, "SHARE", 1, "ROT", 1),
 				Witnesses: []string{"unreachable-member", "unreachable-non-member", "two-members-on-the-reported-address"}, Deadline: 30 * time.Minute}}
+			hs = append(hs, HarnessSpec{Name: "unreachable-report-while-the-provider-handles-a-handshake", Pkg: "cluster", Func: "ZZ_C20_Race", Preempt: tierSel(tier, 2, 3),
+				Witnesses: []string{"report-while-the-provider-handles-the-handshake"}, TrustRace: true, Deadline: 20 * time.Minute})
 			if tier == "thorough" {
 				hs = append(hs, HarnessSpec{Name: "provider-history-longer", Pkg: "cluster", Func: "ZZ_C20_Provider", Params: pm("U", 3, "N", 4, "SHARE", 1, "ROT", 1),
 					Witnesses: []string{"unreachable-member", "unreachable-non-member"}, Deadline: 40 * time.Minute})
@@ -183,7 +185,7 @@ func init() {
 		Bounds: func(tier string) string {
 			return fmt.Sprintf("histories of %d messages (handshake from any peer / member list with symbolic contents / RemoteUnreachableEvent for any member address or an unknown address, delivered to the provider's event-stream child handler and forwarded by it) over a universe of %d members%s", 3, tierSel(tier, 3, 4), map[string]string{"quick": "", "thorough": "; and histories of 4 messages over 3 members (4 messages over 4 members did not finish in 30 minutes and is not registered)"}[tier])
 		},
-		Outside:     []string{"the Started handler (zeroconf announce/browse, ping repeater); the event-stream child's handler is driven directly (its subscription to the event stream is not)", "which of two members sharing one address a report removes (either is accepted; exactly one must go)", "map iteration order: insertion order, and for the last operation of a history every rotation of it (the orders Go produces for a small map); other permutations are not explored"},
+		Outside:     []string{"the Started handler (zeroconf announce/browse, ping repeater); the event-stream child's handler is driven directly (its subscription to the event stream is not); provider and child run concurrently only in the race harness (one handshake against one report, happens-before race detector on the repository's accesses, a reported race is trusted)", "which of two members sharing one address a report removes (either is accepted; exactly one must go)", "map iteration order: insertion order, and for the last operation of a history every rotation of it (the orders Go produces for a small map); other permutations are not explored"},
 		Assumptions: seqAssume("SelfManaged built by its producer on a Cluster value with a bare engine, a recording agent process and a recording remote; its own member added as Started does; messages delivered by calling Receive"),
 	})
 
@@ -208,7 +210,8 @@ func init() {
 		ID: "C12",
 		Harnesses: func(tier string) []HarnessSpec {
 			return []HarnessSpec{{Name: "concurrent-broadcasters", Pkg: "actor", Func: "ZZ_C12_Threads", Preempt: 2, Params: pm("G", 2), Witnesses: []string{"saw-events-of-the-other-broadcaster"}, Deadline: 40 * time.Minute},
-				es(12, tier, "equal-pid-distinct-object", "unsubscribe-of-another-pid", "lifecycle-event-naming-a-subscriber"), l1(12, tier, "lifecycle-events", tierSel(tier, 4, 5), 2, 2, 0, 1, 0)}
+				es(12, tier, "equal-pid-distinct-object", "unsubscribe-of-another-pid", "lifecycle-event-naming-a-subscriber"),
+				{Name: "subscribers-that-stopped-without-unsubscribing", Pkg: "actor", Func: "ZZ_C12_Prune", Params: pm("S", tierSel(tier, 4, 5)), Witnesses: []string{"some-subscribers-stopped-without-unsubscribing"}, Deadline: 20 * time.Minute}, l1(12, tier, "lifecycle-events", tierSel(tier, 4, 5), 2, 2, 0, 1, 0)}
 		},
 		Bounds: func(tier string) string {
 			return fmt.Sprintf("event-stream unit: histories of %d subscribe/unsubscribe/broadcast operations over 2 subscriber PIDs, each given as the registered object or as an equal PID in a distinct object (symbolic), plus Unsubscribe of some other PID whose address and id are symbolic strings (any split of 10 bytes, only equality with a subscriber's PID excluded) and broadcasts of an ActorStoppedEvent naming a subscriber's PID, neither of which may change anybody's subscription; lifecycle events: L1 histories of %d operations with <= 2 panics counting ActorStarted/Restarted/Stopped events per occurrence", tierSel(tier, 4, 5), tierSel(tier, 4, 5))
@@ -325,8 +328,8 @@ func init() {
 		Harnesses: func(tier string) []HarnessSpec {
 			hs := []HarnessSpec{{Name: "request-response", Pkg: "actor", Func: "ZZ_C11", Preempt: tierSel(tier, 1, 2), Params: pm("R", 2, "SLEEP", 0),
 				Witnesses: []string{"replied", "timed-out", "reply-before-Result-entered", "follow-up-replied"}, Deadline: 60 * time.Minute},
-				{Name: "dawdling-requester-and-replier", Pkg: "actor", Func: "ZZ_C11", Preempt: 2, Params: pm("R", 1, "SLEEP", 3),
-					Witnesses: []string{"replied", "timed-out", "late-reply", "requester-dawdles-past-the-timeout-before-Result", "reply-collected-after-the-timeout-had-passed-since-Request"}, Deadline: 60 * time.Minute},
+				{Name: "dawdling-requester-and-replier", Pkg: "actor", Func: "ZZ_C11", Preempt: 2, Params: pm("R", 1, "SLEEP", 3, "CTXREQ", 1),
+					Witnesses: []string{"replied", "timed-out", "late-reply", "requester-dawdles-past-the-timeout-before-Result", "reply-collected-after-the-timeout-had-passed-since-Request", "asking-actor's-context-cancelled"}, Deadline: 60 * time.Minute},
 				{Name: "concurrent-requests", Pkg: "actor", Func: "ZZ_C11_Conc", Preempt: 2, Params: pm("R", tierSel(tier, 2, 3)),
 					Witnesses: []string{"concurrent-request-replied"}, TrustRace: true, Deadline: 60 * time.Minute}}
 			if tier == "thorough" {
@@ -338,7 +341,7 @@ func init() {
 		Bounds: func(tier string) string {
 			return fmt.Sprintf("2 concurrent requests to one responder; each is replied to 0, 1 or 2 times by a replier goroutine; time model: a timeout timer is runnable only once the harness clock has reached its deadline, and the clock moves when a requester dawdles (2 x timeout) between Request and Result, when the replier dawdles before a reply, or to the earliest pending deadline when every goroutine is blocked (second harness: 1 request, both kinds of dawdling, preemption bound 2; thorough adds 2 requests with dawdling); response ids drawn from math/rand are symbolic (any value in range); preemption bound %d", tierSel(tier, 1, 2))
 		},
-		Outside:     []string{"more than 2 requests / 2 replies in the history harness (requests issued one after the other, then a follow-up request); the concurrent harness issues its requests from goroutines (distinct registered response PIDs, race detector on the engine's bookkeeping, each reply reaches its requester)", "a second reply that arrives before Result returned (buffered and dropped, not covered by the statement)", "requests through Context.Request (same Engine.Request path)"},
+		Outside:     []string{"more than 2 requests / 2 replies in the history harness (requests issued one after the other, then a follow-up request); the concurrent harness issues its requests from goroutines (distinct registered response PIDs, race detector on the engine's bookkeeping, each reply reaches its requester)", "a second reply that arrives before Result returned (buffered and dropped, not covered by the statement)", "requests through Context.Request only in the one-request harness (made by an actor spawned WithContext whose application context may be cancelled while the request is outstanding)"},
 		Assumptions: thrAssume("bare engine, recording responder, Response/Registry real; context.WithTimeout/WithDeadline modelled by a timer goroutine that cancels once the harness clock has reached the deadline"),
 	})
 
